@@ -1048,3 +1048,6 @@ Definition res_is (r : res) (e : expr) : bool :=
   match r with Ok (Some x) [] false => expr_eqb x e | _ => false end.
 Fixpoint ladder (n : nat) (inner : list token) : list token :=
   match n with O => inner | S m => T K_LPAREN :: ladder m inner ++ [T K_RPAREN] end.
+(* n nested prefix forms  (+ 1 (+ 1 ... inner ...))  *)
+Fixpoint pladder (n : nat) (inner : list token) : list token :=
+  match n with O => inner | S m => T K_LPAREN :: T K_PLUS :: Tok K_NUMBER b_1 :: pladder m inner ++ [T K_RPAREN] end.
